@@ -52,7 +52,10 @@ CPkgQualifier(path, found, q) ==
   /\ UNCHANGED cvars
 
 \* a scope produced by the registry at any point; vis is whatever that scope reports as visible
-CNewScope(vis) == visible' = vis /\ UNCHANGED <<imp, inpkg, dst>>
+\* ... and it sees every qualifier the file has imported so far (they are names visible in every method)
+CNewScope(vis) == CRange(imp) \subseteq vis /\ visible' = vis /\ UNCHANGED <<imp, inpkg, dst>>
+\* the scope produced for a method sees the qualifiers of the file's imports at that point
+CScopeSees(vis) == CRange(imp) \subseteq vis /\ UNCHANGED cvars
 
 CReset(ip, d, vis) == visible' = vis /\ imp' = << >> /\ inpkg' = ip /\ dst' = d
 
